@@ -255,7 +255,7 @@ def gen_case(rng, tier):
         blocks.append(g.line())
         return {'kind': 'tree', 'blocks': blocks, 'presyms': presyms, 'depth': g.depth_seen,
                 'define_in_tested': g.define_in_tested, 'mutes': g.mutes}
-    if r < 0.9:
+    if r < 0.86:
         # stray / mismatched directives
         g = Gen(rng, 2)
         stmts = flatten(g.blocks(0, numeric) + [g.line()])
@@ -283,7 +283,7 @@ def gen_case(rng, tier):
     # effects in unselected branches
     sel = rng.random() < 0.4
     cond = {'k': 'cond', 'd': 'if', 'c': {'lhs': ('num', 1 if sel else 0), 'op': '!=', 'rhs': ('num', 0), 'bare': True}}
-    eff = rng.choice(['label', 'const', 'zone', 'mute', 'define', 'org', 'include', 'memzone', 'memzone', 'orgzone'])
+    eff = rng.choice(['label', 'const', 'zone', 'mute', 'define', 'org', 'include', 'include', 'include', 'memzone', 'memzone', 'orgzone'])
     inner = {'label': [{'k': 'label', 'name': 'lab_x'}], 'const': [{'k': 'const', 'name': 'kk_x', 'e': ('num', 7)}],
              'zone': [{'k': 'createZone', 'name': 'ZX', 's': 64, 'e': 95}], 'mute': [{'k': 'mute'}],
              'define': [{'k': 'define', 'name': 'SYM_A', 'v': 9}], 'org': [{'k': 'org', 'e': ('num', 32)}],
@@ -326,7 +326,28 @@ def gen_case(rng, tier):
                                                                          {'k': 'cond', 'd': 'endif'}] + after
     files = [stmts]
     if eff == 'include':
-        files.append([{'k': 'data', 'w': 1, 'vals': [('num', 77)]}])
+        inc = [{'k': 'data', 'w': 1, 'vals': [('num', 77)]}]
+        r2 = rng.random()
+        if r2 < 0.45:
+            # every file has its own chains: a branch directive without an opener IN THE INCLUDED FILE is unmatched even when
+            # the #include line itself stands inside a block of the including file
+            inc += [rng.choice([{'k': 'cond', 'd': 'else'}, {'k': 'cond', 'd': 'endif'},
+                                {'k': 'cond', 'd': 'elif', 'c': {'lhs': ('num', 1), 'op': '==', 'rhs': ('num', 1)}}]),
+                    {'k': 'data', 'w': 1, 'vals': [('num', 0xEE)]}]
+            if rng.random() < 0.4:
+                inc += [{'k': 'cond', 'd': 'if', 'c': {'lhs': ('num', 0), 'op': '!=', 'rhs': ('num', 0), 'bare': True}},
+                        {'k': 'data', 'w': 1, 'vals': [('num', 0xDD)]}]
+            eff = 'include-with-unmatched-directive'
+            if rng.random() < 0.7:
+                sel = True
+                cond['c']['lhs'] = ('num', 1)
+        elif r2 < 0.7:
+            # a balanced chain of its own, and a mute change: the included file's mute state is its own as well
+            inc += [{'k': 'cond', 'd': 'if', 'c': {'lhs': ('num', rng.choice([0, 1])), 'op': '!=', 'rhs': ('num', 0), 'bare': True}},
+                    {'k': 'data', 'w': 1, 'vals': [('num', 0x55)]}, {'k': 'cond', 'd': 'else'},
+                    {'k': 'data', 'w': 1, 'vals': [('num', 0x66)]}, {'k': 'cond', 'd': 'endif'}]
+            eff = 'include-with-own-chain'
+        files.append(inc)
     presyms = [p for p in presyms if p['name'] != 'SYM_A']
     return {'kind': 'effect', 'effect': eff, 'selected': sel, 'files': files, 'presyms': presyms}
 
